@@ -123,7 +123,7 @@ theorem insert_evicts_minimally (L : Lawful P Ok) {cfg : Cfg} {c : Cache σ}
   obtain ⟨s', lv, pk⟩ := res
   have hpk : pk = false := sp.no_panic
   subst hpk
-  obtain ⟨s1, vs, repl, es, hlv, hcase⟩ := sp.shape
+  obtain ⟨s1, vs, repl, hevq, es, hlv, hcase⟩ := sp.shape
   obtain ⟨vs', hvs, hu, he, hneed, hidx, hsub, hnd⟩ := es.victims
   simp only [List.nil_append] at hvs
   subst hvs
